@@ -449,6 +449,110 @@ theorem maskKey_independent (k1 k2 pre post : Str) :
       · rw [← List.append_assoc b k2, lastClose_append_close]; simp
 
 
+/-! ### every spelling of the key element -/
+
+/-- An opening tag of element `key` as the matcher sees it. -/
+structure OpenForm (o : Str) : Prop where
+  gt : '>' ∈ o
+  ne : o ≠ []
+  tag : ∀ X, tag? validOpen (o ++ X) = some X
+
+/-- A closing tag of element `key` as the matcher sees it. -/
+def CloseForm (cl : Str) : Prop := ∀ p1, lastClose (cl ++ p1) = some ((lastClose p1).getD p1)
+
+theorem lastClose_append_closeForm {cl : Str} (hc : CloseForm cl) (x p1 : Str) :
+    lastClose (x ++ (cl ++ p1)) = some ((lastClose p1).getD p1) := by
+  induction x with
+  | nil => exact hc p1
+  | cons c cs ih => simp only [List.cons_append, lastClose, ih]
+
+theorem splitAtGt_attrs : ∀ (a X : Str), '>' ∉ a → splitAtGt (a ++ '>' :: X) = some (a, X) := by
+  intro a
+  induction a with
+  | nil => intro X _; simp [splitAtGt]
+  | cons c cs ih =>
+    intro X h
+    have hc : c ≠ '>' := fun e => h (e ▸ List.mem_cons_self)
+    have hcs : '>' ∉ cs := fun e => h (List.mem_cons_of_mem _ e)
+    simp only [List.cons_append, splitAtGt, hc, if_false, ih X hcs]
+
+/-- `<key ATTRIBUTES>` for any attribute text without `>`. -/
+theorem openForm_attrs (a : Str) (h : '>' ∉ a) : OpenForm ('<' :: 'k' :: 'e' :: 'y' :: ' ' :: (a ++ ['>'])) where
+  gt := by simp
+  ne := by simp
+  tag := by
+    intro X
+    have := splitAtGt_attrs a X h
+    simp [tag?, splitAtGt, List.append_assoc, this, validOpen, afterNs, keyOpenTail, nameCh, isWsRe]
+
+theorem openForm_lit : OpenForm litOpen where
+  gt := by simp [litOpen]
+  ne := by simp [litOpen]
+  tag := tag?_open_lit
+
+/-- `<x:key>`. -/
+theorem openForm_ns : OpenForm ['<', 'x', ':', 'k', 'e', 'y', '>'] where
+  gt := by simp
+  ne := by simp
+  tag := by
+    intro X
+    simp [tag?, splitAtGt, validOpen, afterNs, keyOpenTail, nameCh, isWsRe]
+
+theorem closeForm_lit : CloseForm litClose := fun p1 => by
+  have := lastClose_append_close [] p1
+  simpa using this
+
+/-- `</key >`. -/
+theorem closeForm_blank : CloseForm ['<', '/', 'k', 'e', 'y', ' ', '>'] := by
+  intro p1
+  simp only [List.cons_append, List.nil_append, lastClose]
+  cases lastClose p1 with
+  | some r => simp
+  | none => simp [tag?, splitAtGt, validClose, afterNs, keyCloseTail, nameCh, isWsRe]
+
+/-- `</x:key>`. -/
+theorem closeForm_ns : CloseForm ['<', '/', 'x', ':', 'k', 'e', 'y', '>'] := by
+  intro p1
+  simp only [List.cons_append, List.nil_append, lastClose]
+  cases lastClose p1 with
+  | some r => simp
+  | none => simp [tag?, splitAtGt, validClose, afterNs, keyCloseTail, nameCh, isWsRe]
+
+/-- Non-interference of the key mask for every spelling of the tags. -/
+theorem maskKey_forms_independent {o cl : Str} (ho : OpenForm o) (hc : CloseForm cl) (k1 k2 pre post : Str) :
+    maskKey (pre ++ (o ++ (k1 ++ (cl ++ post)))) = maskKey (pre ++ (o ++ (k2 ++ (cl ++ post)))) := by
+  have hstep : ∀ k : Str, keyStep (o ++ (k ++ (cl ++ post))) =
+      some (litOpen ++ xxx ++ litClose, (lastClose post).getD post) := by
+    intro k
+    unfold keyStep
+    rw [ho.tag]
+    simp only []
+    rw [lastClose_append_closeForm hc]
+    simp
+  have hne : ∀ k : Str, o ++ (k ++ (cl ++ post)) ≠ [] := by
+    intro k h
+    exact ho.ne (List.append_eq_nil_iff.mp h).1
+  unfold maskKey
+  apply replaceAll_independent keyStep_decr (hne k1) (hne k2)
+  · exact ⟨_, _, hstep k1, hstep k2⟩
+  · intro p hp
+    have hgt : '>' ∈ p ++ o := List.mem_append_right _ ho.gt
+    have key : ∀ k : Str, tag? validOpen (p ++ (o ++ (k ++ (cl ++ post)))) =
+        (tag? validOpen (p ++ o)).map (· ++ (k ++ (cl ++ post))) := by
+      intro k
+      rw [← List.append_assoc]
+      exact tag?_append _ _ _ hgt
+    unfold keyStep
+    rw [key k1, key k2]
+    cases hb : tag? validOpen (p ++ o) with
+    | none => left; simp
+    | some b =>
+      right; left
+      simp only [Option.map_some]
+      refine ⟨litOpen ++ xxx ++ litClose, (lastClose post).getD post, ?_, ?_⟩
+      · rw [← List.append_assoc b k1, lastClose_append_closeForm hc]; simp
+      · rw [← List.append_assoc b k2, lastClose_append_closeForm hc]; simp
+
 /-! ## 4. escaping -/
 
 /-- Bytes that `url.QueryEscape` can produce. -/
